@@ -27,6 +27,9 @@ CLAIMS = {
  "C05": dict(level="proof", ref="DESIGN.md 5 C05",
    text="PARTIAL (codec level). Coq theorem: the model decoder returns a message or an error for every byte string, never a panic; the model is in exact decode correspondence with Message::from_bytes on a decode-heavy structured stream in the release AND debug builds, every datagram run under catch_unwind (a panic of the implementation is a violation by itself), plus a native sweep of ~200 000 neighbourhood/mutated datagrams and bencode nesting up to the 2048-byte MTU on a 2 MiB-stack thread.",
    note="Node-level part (event loop survives sequences of datagrams, API mapping never reaches unreachable!(), u8 counters) is not decided by this check; see C08/C17 components. Panics inside third-party crates on paths outside the model are covered only by the native sweep."),
+ "C16": dict(level="proof", ref="DESIGN.md 5 C16",
+   text="Coq theorems over the fold of get_mutable_most_recent: the result is None only for an empty stream, otherwise a delivered item of maximal seq and, among those, greatest value (lexicographic byte order), hence equal for every permutation of the delivered items. Tied to the code end to end: a real client node (sync and async API) looks up a key against scripted loopback peers that hold authentic signed items and answer in a chosen order; the call's result is compared with the model and the specification for the F5 witnesses, seq patterns with gaps/duplicates/ties in several permutations and random streams.",
+   note="Trusted: Coq kernel; scripted-peer harness over real loopback UDP with the virtual clock frozen (no request ever times out); the lookup machinery between the sockets and the fold is exercised, not modelled, here."),
 }
 
 TECH = "Coq proof over hand-written Gallina model + differential correspondence (vm_compute) against the Rust implementation"
